@@ -688,6 +688,12 @@ func classify(x *fn, s *ast.RangeStmt) (string, string) {
 							return
 						}
 					}
+					// the collected elements must be the map KEYS (pairwise different): only then does a sort by the elements
+					// themselves leave exactly one arrangement
+					if len(c.Args) != 2 || k == "" || src(c.Args[1]) != k {
+						bad = "collects something other than the iteration key: " + truncate(src(c.Args[1]), 40)
+						return
+					}
 					appendTargets = append(appendTargets, src(lhs))
 					kinds["S3"] = true
 					return
@@ -857,8 +863,54 @@ func sortedAfter(x *fn, loop *ast.RangeStmt, tgt string) bool {
 		if !after || !strings.Contains(src(st), base) {
 			continue
 		}
-		s := src(st)
-		return strings.HasPrefix(s, "sort.") || strings.HasPrefix(s, "msgp.Sort") || strings.Contains(s, "sort.Slice("+base) || strings.Contains(s, "sort.SliceStable("+base) || strings.HasPrefix(s, "slices.Sort")
+		return totalOrderSort(st, base)
+	}
+	return false
+}
+
+// totalOrderSort: the statement sorts `base` by a TOTAL order on the elements themselves: sort.Strings / sort.Ints /
+// msgp.Sort* / slices.Sort on it, or sort.Slice[Stable](base, func(i, j int) bool { return base[i] < base[j] }) (or >).
+// A comparator on a field of the element, or on anything else, is not accepted: ties keep the collection order.
+func totalOrderSort(st ast.Stmt, base string) bool {
+	es, ok := st.(*ast.ExprStmt)
+	if !ok {
+		return false
+	}
+	c, ok := es.X.(*ast.CallExpr)
+	if !ok || len(c.Args) == 0 || src(c.Args[0]) != base {
+		return false
+	}
+	fn := src(c.Fun)
+	switch fn {
+	case "sort.Strings", "sort.Ints", "sort.Float64s", "slices.Sort", "msgp.Sort", "msgp.SortStrings":
+		return len(c.Args) == 1
+	case "sort.Slice", "sort.SliceStable":
+		if len(c.Args) != 2 {
+			return false
+		}
+		lit, ok := c.Args[1].(*ast.FuncLit)
+		if !ok || len(lit.Body.List) != 1 || lit.Type.Params == nil {
+			return false
+		}
+		var names []string
+		for _, f := range lit.Type.Params.List {
+			for _, n := range f.Names {
+				names = append(names, n.Name)
+			}
+		}
+		rs, ok := lit.Body.List[0].(*ast.ReturnStmt)
+		if !ok || len(rs.Results) != 1 || len(names) != 2 {
+			return false
+		}
+		be, ok := rs.Results[0].(*ast.BinaryExpr)
+		if !ok || (be.Op != token.LSS && be.Op != token.GTR) {
+			return false
+		}
+		a, b := base+"["+names[0]+"]", base+"["+names[1]+"]"
+		return (src(be.X) == a && src(be.Y) == b) || (src(be.X) == b && src(be.Y) == a)
+	}
+	if strings.HasPrefix(fn, "msgp.Sort") {
+		return true
 	}
 	return false
 }
